@@ -1501,13 +1501,18 @@ class Horosphere(HyperbolicObject):
         t1 = (-1 * b + np.sqrt(b**2 - 4 * a * c)) / (2 * a)
         t2 = (-1 * b - np.sqrt(b**2 - 4 * a * c)) / (2 * a)
 
+        t1 = np.expand_dims(t1, axis=-1)
+        t2 = np.expand_dims(t2, axis=-1)
+
         p1_poincare = t1 * u + (1 - t1) * v
         p2_poincare = t2 * u + (1 - t2) * v
 
         poincare_pts = np.stack([p1_poincare, p2_poincare], axis=-2)
         klein_pts = poincare_to_kleinian(poincare_pts)
 
-        return coord_change @ Point(klein_pts, model=Model.KLEIN)
+        # transform both points of each pair by that pair's isometry
+        intersections = PointPair(Point(klein_pts, model=Model.KLEIN))
+        return Point(coord_change @ intersections)
 
 class HorosphereArc(Horosphere, PointPair):
     """Model for an arc lying along a horosphere
